@@ -21,6 +21,7 @@ static clip_t make_clip(int kind, int w, int h)
     case 3: c.n = 3; c.b[0] = (pixman_box32_t){ 1, 0, 3, 1 }; c.b[1] = (pixman_box32_t){ w / 2, 0, w, 1 }; c.b[2] = (pixman_box32_t){ 2, h - 1, w - 1, h }; c.name = "3bands"; if (h < 2) c.n = 2; break;
     case 4: c.n = 0; c.empty = 1; c.name = "empty"; break;
     case 5: c.n = 1; c.b[0] = (pixman_box32_t){ -3, -2, w + 5, h + 4 }; c.name = "larger-than-image"; break;
+    case 6: c.n = 2; c.b[0] = (pixman_box32_t){ 0, 0, w / 2, (h + 1) / 2 }; c.b[1] = (pixman_box32_t){ w / 2 + 1, (h + 1) / 2, w, h }; c.name = "two-corners(extents=image,holes)"; if (h < 2) { c.b[0].y2 = 1; c.b[1].y1 = 0; c.b[1].y2 = 1; } break;
     }
     return c;
 }
@@ -107,7 +108,7 @@ static void c3_case(uint64_t idx, void *vctx)
     int nso = th ? NSOPT : NSOPT_Q;
     int sz = (int)(idx % 2); idx /= 2;
     int fi = (int)(idx % NDFMT); idx /= NDFMT;
-    int dclip_k = (int)(idx % 6); idx /= 6;
+    int dclip_k = (int)(idx % 7); idx /= 7;
     int ai = (int)(idx % NAOPT); idx /= NAOPT;
     int so = (int)(idx % nso); idx /= nso;
     int mo = (int)(idx % (nso + 1)) - 1; idx /= (nso + 1);         /* -1: no mask */
@@ -231,7 +232,7 @@ static void c3_case(uint64_t idx, void *vctx)
 /* ---------- other entry points: changed pixels are confined to bounds ∩ clip (∩ boxes) ---------- */
 static void other_case(uint64_t idx, void *vctx)
 {
-    int sz = (int)(idx % 2); idx /= 2; int fi = (int)(idx % NDFMT); idx /= NDFMT; int dclip_k = (int)(idx % 6); idx /= 6; int ep = (int)(idx % 5); idx /= 5; int geo = (int)idx;  /* 0..20 */
+    int sz = (int)(idx % 2); idx /= 2; int fi = (int)(idx % NDFMT); idx /= NDFMT; int dclip_k = (int)(idx % 7); idx /= 7; int ep = (int)(idx % 5); idx /= 5; int geo = (int)idx;  /* 0..20 */
     int W = DSIZE[sz][0], H = DSIZE[sz][1];
     pixman_format_code_t fmt = DFMT[fi]; int bpp = PIXMAN_FORMAT_BPP(fmt);
     if ((ep == 3 || ep == 4) && !(fmt == PIXMAN_a8 || fmt == PIXMAN_a4 || fmt == PIXMAN_a1)) { if (ep == 4) return; }
@@ -263,6 +264,12 @@ static void other_case(uint64_t idx, void *vctx)
             pixman_trapezoid_t t; t.top = pixman_int_to_fixed(gy) - 0x8000; t.bottom = pixman_int_to_fixed(gy + 2) + 0x4000;
             t.left.p1.x = pixman_int_to_fixed(gx); t.left.p1.y = t.top; t.left.p2.x = pixman_int_to_fixed(gx - 1); t.left.p2.y = t.bottom;
             t.right.p1.x = pixman_int_to_fixed(gx + 5) + 0x3000; t.right.p1.y = t.top; t.right.p2.x = pixman_int_to_fixed(gx + 9); t.right.p2.y = t.bottom;
+            /* alpha-only destinations, even anchors: ADD of an opaque colour with the mask format of the destination - the request the library may
+             * rasterise straight into the destination; the clip must hold all the same */
+            if ((fmt == PIXMAN_a8 || fmt == PIXMAN_a4 || fmt == PIXMAN_a1) && !(geo & 1) && run == 0) {
+                epn = "composite_trapezoids(ADD, opaque solid, mask format = destination format)";
+                pixman_composite_trapezoids(PIXMAN_OP_ADD, solid, dst, fmt, 0, 0, 0, 0, 1, &t);
+            } else
             pixman_composite_trapezoids(PIXMAN_OP_SRC, solid, dst, PIXMAN_a8, 0, 0, 0, 0, 1, &t);
             /* SRC through a mask may write (zero coverage -> 0) anywhere in the composite region, whose extents the library derives from
              * the trapezoid: the property bounds changes by clip ∩ bounds only */
@@ -398,10 +405,10 @@ int main(int argc, char **argv)
     vf_assume("request coordinates within int32 arithmetic (x + width does not overflow)");
     c3_ctx c = { th };
     int nso = th ? NSOPT : NSOPT_Q;
-    vf_space_run("composite32-and-compute-region", (uint64_t)2 * NDFMT * 6 * NAOPT * nso * (nso + 1) * 3, c3_case, &c);
-    vf_space_run("fill-glyph-trapezoid-entry-points", (uint64_t)2 * NDFMT * 6 * 5 * 21, other_case, NULL);
+    vf_space_run("composite32-and-compute-region", (uint64_t)2 * NDFMT * 7 * NAOPT * nso * (nso + 1) * 3, c3_case, &c);
+    vf_space_run("fill-glyph-trapezoid-entry-points", (uint64_t)2 * NDFMT * 7 * 5 * 21, other_case, NULL);
     vf_space_run("trapezoid-entry-points-at-the-edges", (uint64_t)4 * 2 * 3 * 3 * TB_NY * TB_NY * TB_NLX * TB_NRX, trap_bounds_case, NULL);
-    vf_bounds = th ? "2 sizes x 6 formats x 6 destination clips x 4 alpha-map options x 15 source options x 16 mask options (mask image a8 / opaque x8r8g8b8 / opaque solid) x 840 rectangles x 2 runs; other entry points: 5 x 21 anchors; trapezoid edges: 4 entry points x 3 alpha formats x 2 sizes x 3 offsets x 105 (top,bottom) x 24 (left,right) x 2 backgrounds"
-                   : "2 sizes x 6 formats x 6 destination clips x 4 alpha-map options x 7 source options x 8 mask options (mask image a8 / opaque x8r8g8b8 / opaque solid) x 840 rectangles x 2 runs; other entry points: 5 x 21 anchors";
+    vf_bounds = th ? "2 sizes x 6 formats x 7 destination clips x 4 alpha-map options x 15 source options x 16 mask options (mask image a8 / opaque x8r8g8b8 / opaque solid) x 840 rectangles x 2 runs; other entry points: 5 x 21 anchors; trapezoid edges: 4 entry points x 3 alpha formats x 2 sizes x 3 offsets x 105 (top,bottom) x 24 (left,right) x 2 backgrounds"
+                   : "2 sizes x 6 formats x 7 destination clips x 4 alpha-map options x 7 source options x 8 mask options (mask image a8 / opaque x8r8g8b8 / opaque solid) x 840 rectangles x 2 runs; other entry points: 5 x 21 anchors";
     return vf_finish();
 }
